@@ -104,6 +104,8 @@ def spec(T: bytes, a: int, b: int, kind: str):
         return ("p", T[0:b - a], "", a, b, [])
     if kind == "e":
         return ("e", b"", "e", a, b, [])
+    if kind == "dH":
+        return ("d", b"Q" * max(1, (b - a) // 2), "", a, b, [])  # decoded WITHOUT a label to a value of about half the covered length
     if kind == "kk":
         return ("k", cov, "", a, b, [("kc", b"qr", "", 0, 1, [("kg", b"g", "", 0, 1, [])])])
     raise ValueError(kind)
